@@ -8,6 +8,7 @@ import (
 	"lunar/engine/utils"
 	sharedConfig "lunar/shared-model/config"
 	"lunar/toolkit-core/clock"
+	"maps"
 	"strconv"
 	"time"
 
@@ -87,10 +88,11 @@ func (plugin *ResponseBasedThrottlingPlugin) OnResponse(
 		return &actions.NoOpAction{}, nil // already cached
 	}
 
+	// The headers are copied: later remedies of this transaction still modify them.
 	cachedResponse := CachedResponse{
 		ID:           onResponse.ID,
 		Body:         onResponse.Body,
-		Headers:      onResponse.Headers,
+		Headers:      maps.Clone(onResponse.Headers),
 		Status:       onResponse.Status,
 		CreationTime: plugin.clock.Now(),
 	}
@@ -169,7 +171,8 @@ func getUpdatedHeaders(
 	clock clock.Clock,
 ) (map[string]string, error) {
 	if remedyConfig.RetryAfterType != sharedConfig.RetryAfterRelativeSeconds {
-		return cachedResponse.Headers, nil
+		// a copy: the stored record is shared by every transaction it answers
+		return maps.Clone(cachedResponse.Headers), nil
 	}
 
 	retryAfter, err := readRetryAfter(
